@@ -771,6 +771,32 @@ def rule_U2(ctx) -> None:
         ctx.proved("U2", "load:unknown-fields-accumulate", mod.loc(load))
 
 
+def rule_U5(ctx) -> None:
+    """the field lookup is redone for every field read: no use of a lookup result left over by an earlier iteration"""
+    from .codec import _load_paths
+
+    mod = ctx.repo.mod(M_INIT)
+    load = mod.func("Message.load")
+    paths = _load_paths(ctx, mod, None, None)
+    stale = None
+    for p in paths:
+        for e in p.events:
+            if e.kind in ("call", "store", "aug") and e.depth == 0:
+                terms = [e.data] if e.kind == "call" else [x for x in e.data if isinstance(x, tuple)]
+                for t in terms:
+                    for x in walk(t):
+                        if x[0] == "n" and x[1].startswith("$stale:"):
+                            stale = (x[1][len("$stale:"):], e, p)
+    if stale:
+        name, e, p = stale
+        ctx.refuted("U5", "load:lookup-per-field", f"stale:{name}", f"{mod.rel}:{e.line}",
+                    f"on the path {val_text(p.valuation)} the local `{name}` is used without having been assigned for the field just read: it still holds what an earlier "
+                    "iteration left there (e.g. None after an unknown field), so a known field that follows an unknown one is decoded with the wrong lookup result",
+                    "known #k, unknown field, known #k again (e.g. repeated elements with an unknown field between them)")
+    else:
+        ctx.proved("U5", "load:lookup-per-field", mod.loc(load), f"{len(paths)} paths")
+
+
 def rule_U3(ctx) -> None:
     """_unknown_fields is emitted by dump and counted by __len__ on every normal path"""
     from ..fieldloop import interp_for
